@@ -94,3 +94,89 @@ Definition rmn_gate_rejects_unfixed (rmn_enabled : bool) (roots sigs remoteF : N
 (* after the patch: uint64(len(sigs)) <= RemoteF, which is Transmit.commit_should_accept's N.ltb sigs (remoteF+1) *)
 Definition rmn_gate_rejects (rmn_enabled : bool) (roots sigs remoteF : N) : bool :=
   rmn_enabled && negb (N.eqb roots 0) && N.ltb sigs (remoteF + 1).
+
+(* ====================================================================================================
+   The processor chain of one round: Query (leader) -> Observation (every oracle) -> ValidateObservation ->
+   Outcome.  commit/merkleroot/query.go:Query, observation.go:getObservation, validate_observation.go (retry rule)
+   ==================================================================================================== *)
+
+(* what the scripted RMN controller answers to ComputeReportSignatures *)
+Inductive ctrl_ans := CtrlSigs (b : bundle) | CtrlTimeout | CtrlErr.
+(* one FixedDestLaneUpdateRequest: source chain, on-ramp address, MinMsgNr, MaxMsgNr *)
+Definition lane_req := (N * N * N * N)%type.
+
+(* the requests are built from the previous outcome's RangesSelectedForReport, in order, with the on-ramp address
+   bound for each chain; an address lookup error aborts before the controller is asked *)
+Fixpoint query_requests (ranges : list chain_range) (onramp : N -> option N) : option (list lane_req) :=
+  match ranges with
+  | [] => Some []
+  | (k, (s, e)) :: rs =>
+      match onramp k with
+      | None => None
+      | Some a => match query_requests rs onramp with Some l => Some ((k, a, s, e) :: l) | None => None end
+      end
+  end.
+
+(* Processor.Query: the query, and the request handed to the controller if it was asked *)
+Definition query_model (enabled : bool) (st : state) (cfg_e : bool) (init : N) (offramp : option N)
+           (ranges : list chain_range) (onramp : N -> option N) (ctrl : ctrl_ans)
+  : res query * option (list lane_req) :=
+  if negb enabled then (Ok (mkQuery false None), None)
+  else if negb (state_eqb st Building) then (Ok (mkQuery false None), None)
+  else if cfg_e then (Err, None)
+  else if N.eqb init 2 then (Err, None)
+  else match offramp with
+       | None => (Err, None)
+       | Some _ =>
+           match query_requests ranges onramp with
+           | None => (Err, None)
+           | Some reqs =>
+               match ctrl with
+               | CtrlSigs b => (Ok (mkQuery false (Some b)), Some reqs)
+               | CtrlTimeout => (Ok (mkQuery true None), Some reqs)      (* rmn.ErrTimeout -> retry next round *)
+               | CtrlErr => (Err, Some reqs)
+               end
+           end
+       end.
+
+(* a merkle-root processor observation as far as its content matters here *)
+Record obs := mkObs {
+  ob_roots : list root; ob_on : list seq_chain; ob_off : list seq_chain; ob_cfg : rmn_cfg;
+  ob_f : bool                      (* FChain non-empty *)
+}.
+Definition obs_empty : obs := mkObs [] [] [] cfg_empty false.
+Definition obs_is_empty (o : obs) : bool :=
+  match ob_roots o, ob_on o, ob_off o with
+  | [], [], [] => cfg_is_empty (ob_cfg o) && negb (ob_f o)
+  | _, _, _ => false
+  end.
+
+(* what the observer returns when asked: merkle roots for the PREVIOUS OUTCOME'S selected ranges, on-ramp latest,
+   off-ramp next, RMN remote config, fChain *)
+Record world := mkWorld {
+  w_roots : list root; w_on : list seq_chain; w_off : list seq_chain; w_cfg : rmn_cfg; w_f : bool
+}.
+
+(* getObservation *)
+Definition get_observation (st : state) (q : query) (w : world) : obs :=
+  match st with
+  | Selecting => mkObs [] (w_on w) (w_off w) (w_cfg w) (w_f w)
+  | Building => if q_retry q then obs_empty else mkObs (w_roots w) [] [] cfg_empty (w_f w)
+  | Waiting => mkObs [] [] (w_off w) cfg_empty (w_f w)
+  end.
+
+Section CryptoFull.
+  Variable verify_sigs : verify_call -> bool.
+  (* Processor.Observation: result and the observation value returned with it (commit.Plugin.Observation logs an error
+     and encodes the returned value all the same, so the value returned next to an error matters: it is empty) *)
+  Definition observation_full (enabled : bool) (st : state) (cfg_e : bool) (d : cfg_detail) (dest : N)
+             (init : N) (chain_known : bool) (offramp : option N) (q : query) (w : world) : res unit * obs :=
+    match observation verify_sigs enabled st cfg_e d dest init chain_known offramp q with
+    | Ok tt => (Ok tt, get_observation st q w)
+    | r => (r, obs_empty)
+    end.
+End CryptoFull.
+
+(* ValidateObservation, the rule that depends on the query: in an announced retry only empty observations are valid
+   (the role checks on the content are property C11/C12) *)
+Definition validate_retry (q : query) (o : obs) : bool := negb (q_retry q && negb (obs_is_empty o)).
